@@ -472,6 +472,28 @@ func c04Op(c *Ctx, w *World, h *Hist, u2 string, faults bool) {
 		c.Probe("pull-checkout-ok")
 		// files that were the recorded pointer and are selected must now be content
 		local := LocalObjects(g2)
+		// and after a pull every selected file's object is in local storage,
+		// whatever state its working-tree file is in (edited, replaced, deleted)
+		if kind != 5 {
+			var ips []string
+			for p := range idx {
+				ips = append(ips, p)
+			}
+			sort.Strings(ips)
+			for _, p := range ips {
+				ptr := idx[p]
+				if ptr.Size == 0 || !f.allows(p) {
+					continue
+				}
+				if attr, _ := w.GitQ(u2, "check-attr", "filter", "--", p); !strings.HasSuffix(strings.TrimSpace(attr), "filter: lfs") {
+					continue
+				}
+				if _, has := local[ptr.Oid]; !has {
+					c.Violation("object-missing-after-success", "%v exited 0 but the object %s of %s (working-tree file: %s) is not in local storage", args, ptr.Oid[:12], p, map[bool]string{true: "as checked out or pointer", false: edits[p]}[edits[p] == ""])
+					return
+				}
+			}
+		}
 		for _, p := range tracked {
 			ptr, isPtrPath := idx[p]
 			b := before[p]
